@@ -30,7 +30,7 @@ static void style_a(int alt, int ord, const char *pfx, hx_buf *w, gx_hdr *tab, i
     char nm[48], v[64];
     switch (alt) {
         case 1: snprintf(nm, sizeof nm, "%s-A", pfx); snprintf(v, sizeof v, "va%d", ord); hb_printf(w, "%s: %s\r\n", nm, v); addh(tab, n, nm, v, NULL); break;
-        case 2: snprintf(nm, sizeof nm, "%s-B", pfx); snprintf(v, sizeof v, "vb%d", ord); hb_printf(w, "%s:\t%s  \r\n", nm, v); addh(tab, n, nm, v, NULL); break;
+        case 2: snprintf(nm, sizeof nm, "%s-B", pfx); snprintf(v, sizeof v, "%d", ord % 10);   /* one-byte value between OWS */ hb_printf(w, "%s:\t%s  \r\n", nm, v); addh(tab, n, nm, v, NULL); break;
         case 3: snprintf(nm, sizeof nm, "%s-C", pfx); hb_printf(w, "%s:\r\n", nm); addh(tab, n, nm, "", NULL); break;
         case 4: snprintf(nm, sizeof nm, "%s-mIxEd", pfx); snprintf(v, sizeof v, "vm%d", ord); hb_printf(w, "%s: %s\r\n", nm, v); addh(tab, n, nm, v, NULL); break;
     }
